@@ -9,7 +9,7 @@
 //@trusted L1a stub (CacheStrategy): get_cached/peek_cached return the view's entry for the id; the view is unconstrained ("get_cached returns anything"); insert_cached may refuse and may evict other ids; invalidate removes exactly the id
 //@trusted hot-tier stub (HotTier): HashMap view; get_with_coherence/exists/len read it, delete/batch_delete/insert_with_coherence/update_metadata/drain_for_flush update it as named
 //@trusted query-cache stub (QueryHashCache): view = cached entries with the doc ids they reference; clear empties it; invalidate_doc(d) leaves no entry referencing d and adds nothing
-//@trusted CircuitBreaker stub: `last_open` is a history variable = the answer of the most recent is_open() call
+//@trusted CircuitBreaker stub: `last_open` is a history variable = the answer of the most recent is_open() call; `failures` / `successes` are history counters of the record_failure() / record_success() calls; effect capabilities: record_success() REQUIRES attempt_cap (granted by an is_open() that answered false, consumed by a verdict), record_failure() REQUIRES attempt_cap AND failure_cap (granted only by the failure outcome -- Err / worker panic / timeout -- of a fallible guarded tier operation; no stub of engine_env.rs grants it: a `None` from a point-read fetch is an answer, not a failure)
 //@trusted digest_embedding is a function of the exact f32 bit patterns (uninterpreted spec_digest)
 use anyhow::{anyhow, Result};
 //@include string_axioms.rs
@@ -113,8 +113,33 @@ pub struct CircuitBreaker { _p: core::marker::PhantomData<()> }
 impl CircuitBreaker {
     /// history variable: the answer of the most recent `is_open()` call
     pub uninterp spec fn last_open(&self) -> bool;
-    #[verifier::external_body] pub fn is_open(&mut self) -> (r: bool) ensures r == final(self).last_open() { unimplemented!() }
-    #[verifier::external_body] pub fn record_success(&mut self) ensures final(self).last_open() == old(self).last_open() { unimplemented!() }
+    /// history variables: how many times record_failure() / record_success() have been called on this breaker
+    pub uninterp spec fn failures(&self) -> nat;
+    pub uninterp spec fn successes(&self) -> nat;
+    /// effect capability "a guarded attempt is in progress": granted by an `is_open()` that answered false (the caller goes on to
+    /// consult the guarded tier), withdrawn by an `is_open()` that answered true, consumed by the verdict (record_success / record_failure)
+    pub uninterp spec fn attempt_cap(&self) -> bool;
+    /// effect capability "the guarded tier operation FAILED": only the FAILURE outcome of a fallible guarded tier operation may grant it
+    /// (in tiered_engine.rs: Err of the timed cold/hot search, JoinError = panic of its worker, timeout).  An answer -- `Some`, `None`
+    /// (document not found), an empty result -- is not a failure.  No stub of this file grants it: the point-read tier operations
+    /// (get_cached, get_with_coherence, fetch_document_with_coherence, ...) return Option and have no failure outcome
+    pub uninterp spec fn failure_cap(&self) -> bool;
+    #[verifier::external_body] pub fn is_open(&mut self) -> (r: bool)
+        ensures r == final(self).last_open(),
+            final(self).failures() == old(self).failures(), final(self).successes() == old(self).successes(),
+            final(self).attempt_cap() == !r, final(self).failure_cap() == old(self).failure_cap() { unimplemented!() }
+    /// verdict "the tier answered": needs an attempt in progress
+    #[verifier::external_body] pub fn record_success(&mut self)
+        requires old(self).attempt_cap(),
+        ensures final(self).last_open() == old(self).last_open(),
+            final(self).successes() == old(self).successes() + 1, final(self).failures() == old(self).failures(),
+            !final(self).attempt_cap(), final(self).failure_cap() == old(self).failure_cap() { unimplemented!() }
+    /// verdict "the tier failed" (may open the breaker: later lookups are refused): needs an attempt in progress AND the failure capability
+    #[verifier::external_body] pub fn record_failure(&mut self)
+        requires old(self).attempt_cap(), old(self).failure_cap(),
+        ensures final(self).last_open() == old(self).last_open(),
+            final(self).failures() == old(self).failures() + 1, final(self).successes() == old(self).successes(),
+            !final(self).attempt_cap(), !final(self).failure_cap() { unimplemented!() }
 }
 
 // ---------------------------------------------------------------- L1a document cache behind `dyn CacheStrategy`
